@@ -34,9 +34,10 @@ def prover_json(prop, tier, only=None):
     obls = []
     for o in eng.obls:
         fx = getattr(o, "fx", None)
+        fs = getattr(fx, "fsrc", None)
         obls.append(dict(name=o.name, kind=o.kind, line=o.line, note=o.note, verdict=o.verdict, backend=o.backend or "", time=o.time,
-                         witness=o.witness, function=fx.fsrc.qualname if fx else "", file=fx.fsrc.relpath if fx else "",
-                         sha256=fx.fsrc.sha256 if fx else "", known_finding=getattr(o, "known_finding", None)))
+                         witness=o.witness, function=fs.qualname if fs else getattr(fx, "label", ""), file=fs.relpath if fs else "sidecar",
+                         sha256=fs.sha256 if fs else "", known_finding=getattr(o, "known_finding", None)))
     assumed = []
     for key, c in eng.reg.contracts.items():
         if not c.verify:
